@@ -147,7 +147,8 @@ def judge(ctx, case, res, w):
     # "the run continues with a fresh worker": healthy replays after a fault get their own verdict
     # (a worker that could not be STARTED is a resource fault outside the property's fault model: which replays fail because of it is not
     #  judged - only that the run goes on, stays within the time bound and leaves nothing behind)
-    for i, r in enumerate(res['results'] if not case.get('fork_fails_at') else []):
+    # (with a timeout of zero a healthy replay that does not answer at once is legitimately given up too: its verdict is not judged)
+    for i, r in enumerate(res['results'] if not case.get('fork_fails_at') and timeout > 0 else []):
         if beh[i] in ('equal', 'different', 'start_async_cassette') and not (i > 0 and beh[i - 1] == H.IDLE_DEATH):
             if r['status'] != H.EXPECTED[beh[i]]:
                 problems.append(('healthy replay %d (%s) was reported as %s: the run did not continue with a working worker' % (i, beh[i], r['status']), {}))
